@@ -45,7 +45,7 @@ CFG = {
 
 @st.composite
 def _scn(draw):
-    tree_extra = draw(st.sampled_from([None, None, "prefix", "deep"]))
+    tree_extra = draw(st.sampled_from([None, "prefix", "prefix", "deep", "deep"]))
     scn = draw(st.one_of(hist.scenarios(CFG), hist.scenarios(dict(CFG, final=["create_sf"]))))
     used = hist.top_names_used(scn)
     if tree_extra == "prefix":
